@@ -49,29 +49,43 @@ def factoryLine (t : Tok) (cnt : Nat) : String := Id.run do
   let l1 := match last with | some x => fmt x | none => "-"
   s!"n={n} first={f1} last={l1} sum={sum} distinct={increasing} same={same} panic={panicked}"
 
-/-- A composite source in a loop (`g`/`r`: fd-backed leaves, `t`: a timer leaf): every (re)registration hands the leaves,
-    in order, the tokens of a fresh factory for the source's registration token — so leaf `j` sits in the poller (or
-    in the timer wheel) under sub-id `j`; a disabled source has no leaf registered.  (`update`, a `Reregister` post
-    action and `enable` all re-run the factory.)  When the timers run out, only timer leaves of an enabled source are
-    called back. -/
+/-- A composite source in a loop (`g`/`r`: fd-backed leaves, `t`: a timer leaf).  Every (re)registration hands the leaves
+    that are still part of the source, in order, the tokens of a fresh factory for the source's registration token — so
+    the j-th *active* leaf sits in the poller (or in the timer wheel) under sub-id `j`; `retire` takes the first active
+    leaf out of the source (it is unregistered at the next re-registration and the leaves behind it move down); a
+    disabled source has no leaf registered.  At the end every registered fd-backed leaf answers an event on its fd, and
+    when the timers run out only registered timer leaves are called back. -/
 def compositeLine (leaves : List Char) (ops : List String) : String :=
   let n := leaves.length
-  let show1 (on : Bool) : String :=
-    match Factory.take? bS n (Factory.new ⟨0, 0, 0⟩) with
+  -- sub-ids of the leaves under the activity flags `act` (none: not registered)
+  let assign (act : List Bool) : List (Option Nat) :=
+    match Factory.take? bS (act.filter id).length (Factory.new ⟨0, 0, 0⟩) with
     | some (toks, _) =>
-      ",".intercalate ((leaves.zip toks).map fun (c, t) => if c == 't' then "t" else if on then toString t.sub else "-")
-    | none => "panic"
-  let r := show1 true
-  let unreg := show1 false
-  let (stages, on) := ops.foldl (fun (acc : List String × Bool) op =>
-    let (out, on) := acc
+      (act.foldl (fun (acc : List (Option Nat) × List Tok) a =>
+        if a then (acc.1 ++ [acc.2.head?.map (·.sub)], acc.2.tail) else (acc.1 ++ [none], acc.2)) ([], toks)).1
+    | none => act.map fun _ => none
+  let none_ : List (Option Nat) := List.replicate n none
+  let show1 (subs : List (Option Nat)) : String :=
+    ",".intercalate ((leaves.zip subs).map fun (c, s) => if c == 't' then "t" else match s with | some j => toString j | none => "-")
+  let act0 : List Bool := List.replicate n true
+  let init := assign act0
+  -- state: activity flags, current registration, enabled?, stages printed so far
+  let (act, subs, _on, stages) := ops.foldl (fun (st : List Bool × List (Option Nat) × Bool × List String) op =>
+    let (act, subs, on, out) := st
     match op with
-    | "disable" => (out ++ [unreg], false)
-    | "enable" => (out ++ [r], true)
-    | _ => (out ++ [if on then r else unreg], on)) ([r], true)
-  let timers := (List.range n).filter fun i => leaves[i]? == some 't'
-  let fired := if on && !timers.isEmpty then ",".intercalate (timers.map toString) else "-"
-  s!"{";".intercalate stages} own=true ok=true fired={fired}"
+    | "disable" => (act, none_, false, out ++ [show1 none_])
+    | "enable" => let s := assign act; (act, s, true, out ++ [show1 s])
+    | "retire" =>
+      let i := act.findIdx id
+      let act' := act.mapIdx fun j a => if j == i then false else a
+      (act', subs, on, out ++ [show1 subs])
+    | _ => let s := if on then assign act else subs; (act, s, on, out ++ [show1 s])) (act0, init, true, [show1 init])
+  let _ := act
+  let idx := List.range n
+  let poked := idx.filter fun i => leaves[i]? != some 't' && (subs[i]?.getD none).isSome
+  let fired := idx.filter fun i => leaves[i]? == some 't' && (subs[i]?.getD none).isSome
+  let showL (l : List Nat) : String := if l.isEmpty then "-" else ",".intercalate (l.map toString)
+  s!"{";".intercalate stages} own=true ok=true poked={showL poked} fired={showL fired}"
 
 def step (line : String) : Option String :=
   match words line with
